@@ -143,8 +143,9 @@ def r2_strict(ck, w):
 
 
 # ---------------------------------------------------------------- nesting profile (shared with C11)
-def nesting_profile(f):
-    """{operation: sorted list of branch depths of its sites}; operation = resolved callee of a call / method call / overloaded operator"""
+def nesting_profile(f, builtin=False):
+    """{operation: sorted list of branch depths of its sites}; operation = resolved callee of a call / method call / overloaded operator;
+    builtin=True also profiles the built-in integer operators and comparisons (`+=`, `-`, `<`, `<=`, …)"""
     from ..core import children
     prof = {}
 
@@ -156,6 +157,8 @@ def nesting_profile(f):
                 prof.setdefault(c, []).append(d)
         elif k in ('bin', 'assignop', 'un') and n.get('f'):
             prof.setdefault((n.get('f') or '') + ':' + str(n.get('op')), []).append(d)
+        elif builtin and k in ('bin', 'assignop') and n.get('op') not in ('&&', '||'):
+            prof.setdefault('builtin:' + str(n.get('op')) + ('=' if k == 'assignop' and not str(n.get('op')).endswith('=') else ''), []).append(d)
         if k == 'if':
             rec(n['c'], d)
             rec(n['a'], d + 1)
@@ -238,3 +241,54 @@ def eval_nesting(ck, w, prop, rule):
         else:
             ck.ok(rule, f'{fx}', f'{len(rs)} operations keep their sites', hirq.fn_loc(f))
     ck.floor(rule, 'operation profiles', n, 1000 if prop == 'C10' else 600)
+
+
+OPS_SCOPES = {
+    # property -> (crates, file prefixes): compile-side / bookkeeping code whose integer arithmetic and comparisons are profiled too
+    'C19': (['circuits'], ('circuits/src/parsing/',)),
+    'C14': (['proofs'], ('proofs/src/poly/kzg/', 'proofs/src/poly/query.rs')),
+    'C02': (['proofs'], ('proofs/src/plonk/permutation/', 'proofs/src/plonk/keygen.rs')),
+}
+
+
+def mine_ops(w, config='default'):
+    from collections import Counter
+    rows = []
+    for prop, (crates, prefixes) in sorted(OPS_SCOPES.items()):
+        seen = Counter(f['_xid'] for f in w.all_fns(crates))
+        for f in w.all_fns(crates):
+            if '::tests::' in f['_nid'] or '/tests' in f['file'] or not f['file'].startswith(prefixes) or seen[f['_xid']] > 1:
+                continue
+            for op, depths in sorted(nesting_profile(f, builtin=True).items()):
+                rows.append(dict(property=prop, config=config, fn=f['_xid'], op=op, depths=depths))
+    return rows
+
+
+def eval_ops(ck, w, prop, rule):
+    import json, os
+    from .. import facts
+    rows = [r for r in json.load(open(os.path.join(facts.VERIF, 'rules', 'ops.json'))) if r['property'] == prop and r.get('config', 'default') == ck.config]
+    ck.rule(rule, 'operation profile of the bookkeeping code of this property (rules/ops.json): for every function in ' + ', '.join(OPS_SCOPES[prop][1]) +
+                  ' and every operation it performs — resolved callees, overloaded operators and the BUILT-IN integer operators and comparisons — each site of '
+                  'the reference tree still exists at the same or a shallower branch depth.  Index, offset and cursor arithmetic (`offset += n`, `i < len`, '
+                  '`a - 1`) is where off-by-one errors live; an operator that disappears (replaced by another one) or moves under a condition is reported.  '
+                  'Added operations never fire; the values themselves are not decided.')
+    byfn = {}
+    for r in rows:
+        byfn.setdefault(r['fn'], []).append(r)
+    n = 0
+    for fx, rs in sorted(byfn.items()):
+        f = w.fn_x(fx, required=False)
+        if f is None:
+            ck.bad(rule, f'{fx}:anchor', f'function {fx} of the operation table not found (renamed/removed: needs triage)')
+            continue
+        cur = nesting_profile(f, builtin=True)
+        bad = [(r['op'], r['depths'], cur.get(r['op'], [])) for r in rs if not profile_dominates(cur.get(r['op'], []), r['depths'])]
+        n += len(rs)
+        if bad:
+            for op, ref, now in bad[:4]:
+                ck.bad(rule, f'{fx}|{short(op)}', f'{fx}: `{op}` had sites at branch depths {ref} on the reference tree and has {now} now: an operation of the '
+                       f'bookkeeping arithmetic was removed, replaced or moved under a condition', hirq.fn_loc(f))
+        else:
+            ck.ok(rule, f'{fx}', f'{len(rs)} operations keep their sites', hirq.fn_loc(f))
+    ck.floor(rule, 'operation profiles', n, 100)
